@@ -50,6 +50,24 @@ if [ -f "$HERE/inpkg/${LOWER}_inpkg_test.go" ] && [ -z "${VERIF_REPLAY_KEY:-}" ]
   if [ -f "$VERIF_INPKG_OUT" ]; then export VERIF_INPKG_RESULT="$VERIF_INPKG_OUT"; else echo "in-package monitor for $ID did not produce a result (see $VERIF_OUT/logs/$ID.inpkg.log): counted inconclusive" >&2; fi
 fi
 
+# Optional third-party oracle for C05: grpc-go v1.38.0 from the module cache,
+# in its own module so that a cache miss cannot break the main harness.
+export VERIF_INTEROP_RESULT=""
+if [ "$ID" = "C05" ] && [ -z "${VERIF_REPLAY_KEY:-}" ]; then
+  IMOD="$HERE/interop/go.verif.$TAG.mod"
+  sed "s#=> /repo#=> $REPO#" "$HERE/interop/go.mod" > "$IMOD.tmp.$$" && mv "$IMOD.tmp.$$" "$IMOD"
+  cp "$HERE/interop/go.sum" "$HERE/interop/go.verif.$TAG.sum" 2>/dev/null || true
+  IOUT="$VERIF_OUT/logs/C05.interop.json"; rm -f "$IOUT"
+  if ( cd "$HERE/interop" && go build -tags verif -modfile="$IMOD" -o "$HERE/bin/interop.$TAG.$$" . ) > "$VERIF_OUT/logs/C05.interop.log" 2>&1; then
+    mv "$HERE/bin/interop.$TAG.$$" "$HERE/bin/interop.$TAG"
+    VERIF_INTEROP_OUT="$IOUT" timeout 600 "$HERE/bin/interop.$TAG" >> "$VERIF_OUT/logs/C05.interop.log" 2>&1
+    [ -f "$IOUT" ] && export VERIF_INTEROP_RESULT="$IOUT"
+  else
+    rm -f "$HERE/bin/interop.$TAG.$$"
+    echo "grpc-go interop module did not build (see $VERIF_OUT/logs/C05.interop.log): counted inconclusive" >&2
+  fi
+fi
+
 RACE=""
 case "$ID" in C13) RACE="-race";; esac
 BIN="$HERE/bin/check.$TAG${RACE:+.race}"
